@@ -129,7 +129,7 @@ def head_of(blk):
 
 def oracle(line, out):
     t = line.split(" ")
-    if t[0] == "chunked":
+    if t[0] in ("chunked", "chunkedb"):
         return oracle_chunked(t, out)
     if t[0] != "req":
         return None
@@ -238,8 +238,12 @@ def oracle_chunked(t, out):
         if ref[0] == "ok" and b"\x00" not in data:
             if C.unhx(o["out"]) != ref[1]:
                 return "decoded chunked body differs from the RFC decoding"
-            if int(o["rest"]) != len(data) - ref[2]:
+            if o.get("ka") == "1" and int(o["rest"]) != len(data) - ref[2]:     # (ka=0: trailer overflow, closes)
                 return "chunked decoder consumed a different number of bytes than the message has"
+    if out.startswith("done") and ref[0] == "more" and " ka=1" in out:
+        return "chunked body declared complete without its terminating empty line, keep-alive left on"
+    if out.startswith("more") and ref[0] == "ok" and b"\x00" not in data and ref[2] < int(t[2]):
+        return "complete chunked body (RFC decoding) not recognised as complete"
     return None
 
 
@@ -253,7 +257,7 @@ def classify(line, out):
             return "req:%s:ok:%s:%s:%s" % (t[1], o[1], o[2], fr)
         return "req:%s:%s" % (t[1], out[:8])
     o = out.split(" ")
-    return "chunked:nseg%d:%s" % (min(len(t) - 3, 5), " ".join(o[:2]) if o[0] == "err" else o[0])
+    return "%s:nseg%d:%s" % (t[0], min(len(t) - 3, 5), " ".join(o[:2]) if o[0] == "err" else o[0])
 
 
 # ------------------------------------------------------------------ generators
@@ -334,7 +338,9 @@ def gen_chunked(ctx):
         cuts = sorted(rng.sample(range(1, max(2, len(data))), min(k - 1, max(0, len(data) - 1)))) if len(data) > 1 else []
         segs = [data[a:b] for a, b in zip([0] + cuts, cuts + [len(data)])] or [b""]
         ms = rng.choice([0, 0, 0, 1])
-        lines.append("chunked %d 8192 %s" % (ms, " ".join(C.hx(s) for s in segs)))
+        # chunkedb: every segment in a read buffer of its own (all cuts are chunkqueue chunk boundaries)
+        lines.append("%s %d 8192 %s" % ("chunkedb" if len(segs) > 1 and rng.random() < 0.5 else "chunked", ms,
+                                        " ".join(C.hx(s) for s in segs)))
     # every segmentation of short streams
     shorts = [b"1\r\na\r\n0\r\n\r\n", b"2;x\r\nab\r\n0\r\n\r\nG", b"1\r\na\rX", b"0\r\nA:b\r\n\r\n", b"1\na\r\n0\r\n\r\n",
               b"a\r\n0123456789\r\n0\r\n\r\n"[:13]]
@@ -342,6 +348,27 @@ def gen_chunked(ctx):
         d = d[:13] if ctx.quick else d[:15]
         for segs in all_splits(d):
             lines.append("chunked 0 8192 %s" % " ".join(C.hx(s) for s in segs))
+            if len(segs) > 1:
+                lines.append("chunkedb 0 8192 %s" % " ".join(C.hx(s) for s in segs))
+    # trailer section reaching max-request-field-size exactly at the end of the data, no terminator: the body is
+    # declared complete with keep-alive off (any cut; shared and separate read buffers)
+    for _ in range(1500 if ctx.quick else 12000):
+        mf = rng.choice([24, 32, 64, 100, 512])
+        pre = b"".join(b"%x\r\n" % len(d) + d + b"\r\n" for d in
+                       [bytes(rng.choice(b"ab\r\n0") for _ in range(rng.randint(1, 9))) for _ in range(rng.randint(0, 2))])
+        last = rng.choice([b"0\r\n", b"00\r\n", b"0;x\r\n"])
+        short = rng.choice([0, 0, 0, 1, 5])          # 0: the data ends exactly at the limit
+        fill = mf - len(last) - short
+        trl = (b"A: b\r\n" * (fill // 6 + 1))[:fill]
+        if trl.endswith(b"\r"):
+            trl = trl[:-1] + b"x"
+        data = pre + last + trl
+        # (bytes after the limit only in a later read: a terminator already in the buffer the C examines counts)
+        tailseg = b"" if short else rng.choice([b"", b"", b"\r\nGET / HTTP/1.1\r\n\r\n", b"\r\n\r\n"])
+        k = rng.choice([1, 2, 3, 5])
+        cuts = sorted(rng.sample(range(1, len(data)), min(k - 1, len(data) - 1)))
+        segs = [data[a:b] for a, b in zip([0] + cuts, cuts + [len(data)])] + ([tailseg] if tailseg else [])
+        lines.append("%s 0 %d %s" % (rng.choice(["chunked", "chunkedb"]), mf, " ".join(C.hx(x) for x in segs)))
     # size limits / long lines
     for ln in (1000, 1019, 1020, 1021, 1022, 1030, 2000):
         lines.append("chunked 0 8192 %s" % C.hx(b"1;" + b"x" * ln + b"\r\na\r\n0\r\n\r\n"))
@@ -368,7 +395,11 @@ while ($got < $n) { my $r = read(STDIN, $b, $n - $got, $got); last if !$r; $got 
 print "Content-Type: application/octet-stream\r\n\r\n";
 print "M=" . $ENV{"REQUEST_METHOD"} . "\nCL=" . (defined($cl) ? $cl : "-") . "\nB=" . $b;
 """
+NOREAD_PL = '#!/usr/bin/perl\nprint "Status: 202\\r\\nContent-Type: text/plain\\r\\n\\r\\nNOREAD";\n'
 STATIC = {"/index.html": b"<html>index</html>\n", "/a.txt": b"aaaa\n"}
+# further resources: /x.deny (mod_access: 403), /sub (directory: 301; /sub/ 403), /eh.html (error-handler page),
+# /noread.pl (CGI that answers 202 without reading stdin)
+EXTRA_FILES = {"/x.deny": b"denied\n", "/eh.html": b"<html>error page</html>\n", "/sub/.keep": b""}
 SENTINEL = b"GET /a.txt HTTP/1.1\r\nHost: sentinel\r\nConnection: close\r\n\r\n"
 
 CONN_CONF = """
@@ -381,6 +412,8 @@ server.stream-request-body = %(stream)d
 server.max-keep-alive-requests = %(maxka)d
 server.max-request-size = %(maxsize)d
 server.max-request-field-size = %(maxfield)d
+url.access-deny = (".deny")
+%(errh)s
 %(popts)s
 """
 
@@ -425,16 +458,30 @@ def parseopt_bits(d):
     return (HS if hs else 0) | ((HOSTS | HOSTN) if hosts else 0) | (HOSTN if hostn else 0) | (GB if gb else 0) | opts
 
 
-def mkconf(name, popts=None, stream=0, maxka=100, maxsize=0, maxfield=8192, kaidle=30):
+def mkconf(name, popts=None, stream=0, maxka=100, maxsize=0, maxfield=8192, kaidle=30, errh=None):
     popts = popts or {}
     txt = ""
     if popts:
         txt = "server.http-parseopts = (" + ", ".join(
             '"%s" => "%s"' % (k, "enable" if v else "disable") for k, v in popts.items()) + ")"
     return dict(name=name, bits=parseopt_bits(popts), stream=stream, maxka=maxka, maxsize=maxsize,
-                maxfield=maxfield, kaidle=kaidle, strict=bool(popts.get("header-strict", 1)),
+                maxfield=maxfield, kaidle=kaidle, errh=errh, strict=bool(popts.get("header-strict", 1)),
                 text=CONN_CONF % dict(stream=stream, maxka=maxka, maxsize=maxsize, maxfield=maxfield, popts=txt,
-                                      kaidle=kaidle))
+                                      kaidle=kaidle,
+                                      errh={None: "", "all": 'server.error-handler = "/eh.html"',
+                                            "404": 'server.error-handler-404 = "/eh.html"'}[errh]))
+
+
+def make_server(bd, cf):
+    """one lighttpd for a configuration, with the docroot every e2e-conn stream relies on"""
+    from .. import e2e
+    srv = e2e.Server(bd, cf["text"], modules=("mod_access", "mod_cgi"))
+    os.makedirs(srv.docroot + "/sub", exist_ok=True)
+    for pth, content in list(STATIC.items()) + list(EXTRA_FILES.items()):
+        open(srv.docroot + pth, "wb").write(content)
+    open(srv.docroot + "/echo.pl", "w").write(ECHO_PL)
+    open(srv.docroot + "/noread.pl", "w").write(NOREAD_PL)
+    return srv
 
 
 def conn_confs(ctx):
@@ -446,13 +493,18 @@ def conn_confs(ctx):
           mkconf("normalize-required+getbody+maxka2",
                  {"url-normalize-required": 1, "url-ctrls-reject": 0, "url-path-2f-reject": 1, "url-path-2f-decode": 0,
                   "method-get-body": 1}, maxka=2),
-          mkconf("limits", maxsize=1, maxfield=512)]
+          mkconf("limits", maxsize=1, maxfield=512),
+          # who consumes the body of a request that ends in an error: the generic error handler re-dispatches the
+          # request (and forgets its body), error-handler-404 does not
+          mkconf("error-handler", errh="all"),
+          mkconf("error-handler-404", errh="404")]
     if not ctx.quick:
         cs += [mkconf("ctrls-off+stream2", {"url-ctrls-reject": 0}, stream=2),
                mkconf("hostnorm+dotseg-reject", {"host-strict": 0, "host-normalize": 1, "url-path-dotseg-reject": 1,
                                                  "url-path-dotseg-remove": 0, "url-query-20-plus": 1}),
                mkconf("lenient+stream2+maxka1", {"header-strict": 0}, stream=2, maxka=1),
-               mkconf("keep-alive-off", kaidle=0)]
+               mkconf("keep-alive-off", kaidle=0),
+               mkconf("error-handler+lenient+stream2", {"header-strict": 0}, stream=2, errh="all")]
     return cs
 
 
@@ -494,11 +546,40 @@ def enchunk(rng, body, ok=True):
     return out
 
 
-def conn_message(rng, big=False):
-    """a well-formed message: (bytes, description)"""
-    kind = rng.choice(["get-static", "get-static", "get-404", "head", "get-cgi", "post-cl", "post-cl", "post-cl",
-                       "post-ck", "post-ck", "put-cl", "post-static", "post-static0", "options", "delete"])
-    v10 = rng.random() < 0.15
+TARGET_CLASSES = {       # who consumes the request body
+    "cgi": [b"/echo.pl", b"/echo.pl", b"/echo.pl?x=1&y=2", b"/./echo.pl", b"/echo.pl/info"],   # reads and echoes it
+    "noread": [b"/noread.pl"],                           # CGI that never reads its stdin (lighttpd has read it)
+    "static": [b"/index.html", b"/a.txt", b"/a.txt?q", b"/dir/../a.txt", b"//index.html"],    # nobody
+    "missing": [b"/nope", b"/nope/x?y", b"/index.htm"],  # nobody: 404 (error handlers!)
+    "deny": [b"/x.deny"],                                # nobody: 403 from mod_access
+    "dir": [b"/sub"],                                    # nobody: 301
+    "dirslash": [b"/sub/"],                              # nobody: 403 / 501
+    "star": [b"*"]}
+
+
+def wchoice(rng, pairs):
+    tot = sum(w for _, w in pairs)
+    x = rng.random() * tot
+    for v, w in pairs:
+        x -= w
+        if x < 0:
+            return v
+    return pairs[-1][0]
+
+
+def conn_message(rng, big=False, stream=0):
+    """a well-formed message (head, body, kind): target class x method x body framing"""
+    tclass = wchoice(rng, [("cgi", 36), ("static", 20), ("missing", 15), ("deny", 6), ("dir", 4), ("dirslash", 3),
+                           ("noread", 0 if stream else 8), ("star", 2)])
+    m = wchoice(rng, [(b"GET", 30), (b"POST", 36), (b"PUT", 10), (b"HEAD", 8), (b"DELETE", 7), (b"OPTIONS", 4),
+                      (b"PROPFIND", 5)])
+    if tclass == "star":
+        m = b"OPTIONS"
+    if m in (b"GET", b"HEAD", b"OPTIONS"):
+        framing = "none" if rng.random() < 0.96 else "cl"
+    else:
+        framing = wchoice(rng, [("cl", 45), ("ck", 35), ("cl0", 10), ("none", 10)])
+    v10 = rng.random() < 0.15 and framing != "ck"
     ver = b"HTTP/1.0" if v10 else b"HTTP/1.1"
     fl = []
     if not v10 or rng.random() < 0.5:
@@ -509,43 +590,24 @@ def conn_message(rng, big=False):
         fl.append((b"Connection", b"close"))
     for _ in range(rng.randint(0, 3)):
         fl.append(rng.choice(SAFE_FIELDS))
+    t = rng.choice(TARGET_CLASSES[tclass])
     body = b""
-    cgi_t = rng.choice([b"/echo.pl", b"/echo.pl", b"/echo.pl?x=1&y=2", b"/./echo.pl", b"/echo.pl/info"])
-    st_t = rng.choice([b"/index.html", b"/a.txt", b"/a.txt?q", b"/dir/../a.txt", b"//index.html"])
-    if kind == "get-static":
-        m, t = b"GET", st_t
-    elif kind == "get-404":
-        m, t = b"GET", rng.choice([b"/nope", b"/nope/x?y", b"/index.htm"])
-    elif kind == "head":
-        m, t = b"HEAD", rng.choice([st_t, b"/nope", cgi_t])
-    elif kind == "get-cgi":
-        m, t = b"GET", cgi_t
-    elif kind == "options":
-        m, t = b"OPTIONS", rng.choice([b"*", st_t])
-    elif kind == "delete":
-        m, t = rng.choice([b"DELETE", b"PROPFIND", b"PUT"]), rng.choice([st_t, b"/nope"])
-    elif kind in ("post-cl", "put-cl", "post-static", "post-static0"):
-        m = b"PUT" if kind == "put-cl" else b"POST"
-        t = st_t if kind.startswith("post-static") else cgi_t
-        body = b"" if kind == "post-static0" else rand_body(rng, big)
-        if kind == "post-static" and not body:
+    if framing in ("cl", "cl0"):
+        body = b"" if framing == "cl0" else rand_body(rng, big and tclass == "cgi")
+        if framing == "cl" and not body and tclass != "cgi":
             body = b"x"
+        if tclass == "noread":
+            body = body[:2000]
         fl.append((rng.choice([b"Content-Length", b"content-length"]), b"%d" % len(body)))
-    else:
-        m, t = b"POST", cgi_t
-        raw = rand_body(rng, False)[:3000]
-        if v10:
-            ver = b"HTTP/1.1"
-            if not any(k.lower() == b"host" for k, _ in fl):
-                fl.append((b"Host", b"example.org"))
+    elif framing == "ck":
         fl.append((rng.choice([b"Transfer-Encoding", b"transfer-encoding"]), rng.choice([b"chunked", b"Chunked", b"CHUNKED"])))
-        body = enchunk(rng, raw)
+        body = enchunk(rng, rand_body(rng, False)[:2000 if tclass == "noread" else 3000])
     rng.shuffle(fl)
     head = m + b" " + t + b" " + ver + b"\r\n"
     for k, val in fl:
         head += k + rng.choice([b": ", b": ", b":", b":\t "]) + val + b"\r\n"
     head += b"\r\n"
-    return head, body, kind
+    return head, body, "%s-%s-%s" % (m.decode().lower(), tclass, framing)
 
 
 def break_message(rng, head, body, kind):
@@ -632,13 +694,13 @@ def break_message(rng, head, body, kind):
     return b"\r\n".join(lines) + b"\r\n\r\n", body, how
 
 
-def conn_pipeline(rng, big=False):
+def conn_pipeline(rng, big=False, stream=0):
     """(stream bytes incl. sentinel, list of (offset, kind) marks)"""
     n = rng.choice([1, 2, 2, 3, 3, 4, 5, 6])
     out, marks = b"", []
     bad_at = rng.randrange(n) if rng.random() < 0.45 else -1
     for i in range(n):
-        head, body, kind = conn_message(rng, big)
+        head, body, kind = conn_message(rng, big, stream)
         if i == bad_at or (bad_at >= 0 and i > bad_at and rng.random() < 0.2):
             head, body, kind = break_message(rng, head, body, kind)
         if i and rng.random() < 0.15:
@@ -650,6 +712,99 @@ def conn_pipeline(rng, big=False):
         out += body
     marks.append((len(out), "sentinel"))
     return out + SENTINEL, marks
+
+
+LOOKALIKE = b"GET /a.txt HTTP/1.1\r\nHost: evil\r\n\r\n"
+
+
+def gen_body_owner(ctx, confs):
+    """systematic cross product: who consumes the body (target class, configuration) x method x body framing,
+    the body being two complete look-alike requests; followed by a distinguishable request and the sentinel"""
+    out = []
+    for ci, cf in enumerate(confs):
+        for tclass in ("cgi", "noread", "static", "missing", "deny", "dir", "dirslash"):
+            if tclass == "noread" and cf["stream"]:
+                continue
+            for m in (b"POST", b"PUT", b"DELETE"):
+                for framing in ("cl", "ck"):
+                    if ctx.quick and (ci * 7 + len(out)) % 2 and cf["errh"] is None:
+                        continue
+                    t = TARGET_CLASSES[tclass][0]
+                    payload = LOOKALIKE * 2
+                    head = m + b" " + t + b" HTTP/1.1\r\nHost: a\r\n"
+                    if framing == "cl":
+                        msg = head + b"Content-Length: %d\r\n\r\n" % len(payload) + payload
+                    else:
+                        msg = head + b"Transfer-Encoding: chunked\r\n\r\n%x\r\n" % len(payload) + payload + b"\r\n0\r\n\r\n"
+                    data = msg + b"GET /index.html HTTP/1.1\r\nHost: a\r\n\r\n" + SENTINEL
+                    hl = msg.index(b"\r\n\r\n") + 4
+                    out.append((ci, data, [(hl, "body-owner:%s" % tclass)], [("one", [data], 0.0),
+                                                                            ("body-later", [data[:hl], data[hl:]], 0.02)]))
+    return out
+
+
+def gen_align(ctx, confs):
+    """read-buffer alignment: lighttpd reads a burst into a first buffer of 8191 bytes and the rest into a second
+    chunkqueue chunk.  Bursts (ONE segment) in which padding -- the body of a preceding request, or the data of a first
+    chunk -- places EVERY byte boundary of a message (head, chunk-size line, chunk data, its CRLF, last-chunk line,
+    trailers, final CRLF, blank line, next request line) on the buffer boundary"""
+    nxt = b"GET /index.html HTTP/1.1\r\nHost: a\r\n\r\n"
+    ck = b"POST /echo.pl HTTP/1.1\r\nHost: a\r\nTransfer-Encoding: chunked\r\n\r\n"
+    structs = [("ck", ck + b"5\r\nhello\r\n0\r\n\r\n" + nxt),
+               ("ck-trailer", ck + b"3;x\r\nabc\r\n0\r\nX-T: v\r\n\r\n" + nxt),
+               ("cl", b"POST /echo.pl HTTP/1.1\r\nHost: a\r\nContent-Length: 5\r\n\r\nhello" + nxt),
+               ("blank", b"GET /a.txt HTTP/1.1\r\nHost: a\r\n\r\n\r\n" + nxt)]
+    out = []
+    B = 8191
+    cis = [0] if ctx.quick else [0, 1, 3, 7]
+    for ci in cis:
+        for name, interest in structs:
+            lo, hi = -2, len(interest) - len(nxt) + 18
+            if ctx.quick and name in ("cl", "blank"):
+                lo = interest.index(b"\r\n\r\n") - 2
+            for k in range(lo, hi):
+                # (A) padding = Content-Length body of a preceding request
+                for P in range(B - k - 80, B - k - 40):
+                    pre = b"POST /echo.pl HTTP/1.1\r\nHost: a\r\nContent-Length: %d\r\n\r\n" % P
+                    if len(pre) + P + k == B:
+                        data = pre + b"p" * P + interest + SENTINEL
+                        out.append((ci, data, [(B, "align:%s" % name)], [("burst", [data], 0.0)]))
+                        break
+        # (B) padding = data of the first chunk of the same chunked request
+        tail = b"\r\n0\r\n\r\n" + nxt
+        for k in range(-3, 14 if ctx.quick else len(tail) - 8):
+            for N in range(B - k - 90, B - k - 50):
+                pre = ck + b"%x\r\n" % N
+                if len(pre) + N + k == B:
+                    data = pre + b"q" * N + tail + SENTINEL
+                    out.append((ci, data, [(B, "align:ck-data")], [("burst", [data], 0.0)]))
+                    break
+    return out
+
+
+def gen_trailer_overflow(ctx, confs):
+    """chunked bodies whose trailer section is longer than max-request-field-size and whose end looks like a request,
+    cut so that the terminating empty line arrives in a later segment"""
+    out = []
+    for ci, cf in enumerate(confs):
+        if cf["name"] not in ("default", "stream1", "limits", "lenient", "error-handler"):
+            continue
+        mf = cf["maxfield"]
+        for extra in (-40, 0, 300):
+            for tailreq in (LOOKALIKE, b"X-End: 1\r\n\r\n"):
+                head = b"POST /echo.pl HTTP/1.1\r\nHost: a\r\nTransfer-Encoding: chunked\r\n\r\n3\r\nabc\r\n0\r\n"
+                trl = b"X-T: " + b"t" * (mf + extra) + b"\r\n"
+                data = head + trl + tailreq + b"GET /index.html HTTP/1.1\r\nHost: a\r\n\r\n" + SENTINEL
+                c1 = len(head) + len(trl)                   # right before the look-alike request / last field
+                c2 = c1 + len(tailreq) - 2                  # before the final CRLF
+                segl = [("one", [data], 0.0), ("tov-tail", cut(data, [c1]), 0.08), ("tov-crlf", cut(data, [c2]), 0.08),
+                        ("tov-mid", cut(data, [len(head) + mf - 3, c1]), 0.08)]
+                if not ctx.quick:
+                    segl += [("tov-3", cut(data, [len(head) + 100, len(head) + mf // 2, c1]), 0.05),
+                             ("tov-limit", cut(data, [len(head) + mf - 4]), 0.08),
+                             ("tov-limit1", cut(data, [len(head) + mf - 2]), 0.08)]
+                out.append((ci, data, [(c1, "trailer-overflow")], segl))
+    return out
 
 
 def cut(data, points):
@@ -770,7 +925,7 @@ def ref_head(data, i, strict, first):
     if why:
         return dict(kind="reject", why=why)
     framing = "chunked" if te_vals else ("cl" if cl and int(cl[0][0]) > 0 else "none")
-    return dict(kind="ok", method=method, version=version, framing=framing, cl=int(cl[0][0]) if cl else 0,
+    return dict(kind="ok", method=method, target=target, version=version, framing=framing, cl=int(cl[0][0]) if cl else 0,
                 te_cl=bool(te_vals and cl), end=end)
 
 
@@ -834,6 +989,14 @@ def conn_oracle(conf, data, obs):
                     i, len(m["body"]), len(echo["B"]))
             if echo["CL"] != b"%d" % len(m["body"]):
                 return "CONTENT_LENGTH %r differs from the body length %d of message %d" % (echo["CL"], len(m["body"]), i)
+            if b"echo.pl" not in m["target"]:
+                return "response %d is the CGI's echo, message %d asks for %r" % (i, i, m["target"][:40])
+        if i < n_ok and echo is None and status == 200 and msgs[i]["method"] == b"GET" and "bodies" in obs:
+            # response i must answer message i: a known static resource is served with its own content
+            want = STATIC.get(msgs[i]["target"].split(b"?")[0].decode("latin-1"))
+            if want is not None and obs["bodies"][i] != want:
+                return "response %d does not answer message %d (GET %s): other content" % (
+                    i, i, msgs[i]["target"].decode("latin-1")[:30])
         if echo is not None and i == n_ok and stop == "reject":
             return "message in the rejected class was accepted and handled (%s)" % why
         if i < n_ok and msgs[i].get("te_cl") and status < 400 and (i != len(resps) - 1 or not obs["closed"]):
@@ -933,7 +1096,7 @@ def observe(data, closed, head_flags):
             err = err or ex
     if rs is None:
         return dict(resps=[], closed=closed, error="response stream is not well-formed HTTP/1.x: %s" % err)
-    out = []
+    out, bodies = [], []
     for r in rs:
         if r["status"] < 200 and r["status"] != 101:
             continue
@@ -943,16 +1106,25 @@ def observe(data, closed, head_flags):
         if m:
             echo = {"M": m.group(1), "CL": m.group(2), "B": b[m.end():]}
         out.append((r["status"], echo))
-    return dict(resps=out, closed=closed, error=None)
+        bodies.append(b)
+    return dict(resps=out, bodies=bodies, closed=closed, error=None)
 
 
-def static_status(method, path):
-    """status of a request that is not handled by the CGI, for the paths the generator uses (None: not compared)"""
+def static_status(method, path, conf):
+    """status of a request that is not handled by a CGI, for the paths the generators use (None: not compared)"""
     if method == b"OPTIONS" and path == b"*":
         return 200
     if path in (b"/index.html", b"/a.txt"):
         return 200 if method in (b"GET", b"HEAD", b"POST", b"OPTIONS") else 501
+    if path == b"/x.deny":
+        return 403
+    if path == b"/sub":
+        return 301
+    if path == b"/sub/":
+        return 403 if method in (b"GET", b"HEAD", b"POST") else (501 if method in (b"PUT", b"DELETE", b"PROPFIND") else None)
     if path.startswith(b"/nope") or path == b"/index.htm":
+        if conf.get("errh") == "404":       # error-handler-404: the handler page is served in place (200)
+            return 200 if method in (b"GET", b"HEAD", b"POST") else (501 if method in (b"PUT", b"DELETE", b"PROPFIND") else None)
         return 404
     return None
 
@@ -969,7 +1141,7 @@ def model_expect(mo):
         a = body.split(":")
         if a[0] == "req":
             items.append(dict(kind="req", status=int(a[1]), method=C.unhx(a[2]), path=C.unhx(a[3]),
-                              framing=a[4], body=C.unhx(a[5]), at=int(idx)))
+                              framing=a[4], body=C.unhx(a[5]), tov="tov" in a[6:], at=int(idx)))
         elif a[0] == "rej":
             alt = [int(x[3:]) for x in a[2:] if x.startswith("alt")]
             items.append(dict(kind="rej", status=int(a[1]), alt=alt[0] if alt else None, ck="ck" in a[2:], at=int(idx)))
@@ -1003,10 +1175,15 @@ def conn_compare(conf, items, phase, obs):
                 return "response %d: status %d without echo, model: request handled by the CGI" % (i, status)
             if echo["M"] != it["method"] or echo["B"] != it["body"] or echo["CL"] != b"%d" % len(it["body"]):
                 return "response %d: echoed method/body/CONTENT_LENGTH differ from the model's request" % i
+            if it.get("tov"):
+                # documented: the trailer section outgrew max-request-field-size.  The automaton closes here; the C
+                # decides per read buffer (keep-alive stays if the terminator is in the buffer it examines).  What
+                # follows is judged by the oracle alone.
+                return None
         else:
             if echo is not None:
                 return "response %d is a CGI echo, model: not a CGI request" % i
-            want = it["status"] if it["status"] else static_status(it["method"], it["path"])
+            want = it["status"] if it["status"] else static_status(it["method"], it["path"], conf)
             if want is not None and status != want:
                 return "response %d: status %d, expected %d" % (i, status, want)
     if len(resps) > len(items):
@@ -1038,7 +1215,7 @@ def gen_conn(ctx, confs):
     n = 420 if ctx.quick else 8000
     for _ in range(n):
         ci = rng.randrange(len(confs))
-        data, marks = conn_pipeline(rng, big=not ctx.quick or rng.random() < 0.3)
+        data, marks = conn_pipeline(rng, big=not ctx.quick or rng.random() < 0.3, stream=confs[ci]["stream"])
         if confs[ci]["maxfield"] < 8192 and rng.random() < 0.5:
             data = data.replace(b"\r\n\r\n", b"\r\nX-Pad: " + b"p" * rng.choice([300, 440, 470, 480, 500]) + b"\r\n\r\n", 1)
             marks = [(0, "padded")]
@@ -1059,6 +1236,21 @@ def gen_conn(ctx, confs):
     return cases, sweep
 
 
+def model_lines(lines):
+    """the model on all case lines, round-robin over the cores (the byte-at-a-time automaton is quadratic in the
+    length of a chunk or trailer section, and the long cases are generated next to each other)"""
+    n = max(1, min(C.NCPU, len(lines) // 8))
+    parts = [lines[i::n] for i in range(n)]
+    with ThreadPoolExecutor(n) as ex:
+        res = list(ex.map(lambda p: C.run_lines([C.ltmodel_path(), "h1"], p), parts))
+    out = [None] * len(lines)
+    for i, (o, rc, err) in enumerate(res):
+        if rc != 0 or len(o) != len(parts[i]):
+            return [], rc or 1, err
+        out[i::n] = o
+    return out, 0, ""
+
+
 def run_conn(ctx):
     from .. import e2e
     t0 = time.time()
@@ -1074,6 +1266,14 @@ def run_conn(ctx):
         segl = segmentations(ctx.rng, data, marks, ctx.quick) if k < len(cases) else [("one", [data], 0.0)]
         for kind, segs, gap in segl:
             jobs.append((k, ci, kind, segs, gap))
+    # structured streams: body ownership cross product, read-buffer alignment sweep, trailer overflow
+    for name, gen in (("body-owner", gen_body_owner), ("align", gen_align), ("trailer-overflow", gen_trailer_overflow)):
+        for ci, data, marks, segl in gen(ctx, confs):
+            k = len(allc)
+            allc.append((ci, data, marks))
+            for kind, segs, gap in segl:
+                jobs.append((k, ci, kind, segs, gap))
+                ctx.dist["conn:stream:" + name] += 1
     # exhaustive small scope: EVERY segmentation of the bytes around two message boundaries
     # (end of a chunked body | empty line | next request line; head | Content-Length body | next request)
     ex_n, ex_k = 0, []
@@ -1099,17 +1299,14 @@ def run_conn(ctx):
                                          confs[ci]["kaidle"], confs[ci]["maxsize"], C.hx(data)) for ci, data, _ in allc]
     if not ctx.model_ok:
         return
-    mo, rc, merr = C.parallel_lines([C.ltmodel_path(), "h1"], lines)
+    mo, rc, merr = model_lines(lines)
     if rc != 0 or len(mo) != len(lines):
         ctx.broken.append({"kind": "model-run", "names": ["h1 conn"], "log": merr[-2000:]})
         return
     expects = [model_expect(o) for o in mo]
     servers = []
     for cf in confs:
-        srv = e2e.Server(bd, cf["text"], modules=("mod_cgi",))
-        for pth, content in STATIC.items():
-            open(srv.docroot + pth, "wb").write(content)
-        open(srv.docroot + "/echo.pl", "w").write(ECHO_PL)
+        srv = make_server(bd, cf)
         srv.start()
         servers.append(srv)
 
@@ -1187,7 +1384,8 @@ def run_conn(ctx):
         ci = allc[k][0]
         items = expects[k][0]
         if any(it["kind"] == "rej" and (it.get("alt") or (confs[ci]["stream"] and it.get("ck"))) for it in items) or \
-                (confs[ci]["stream"] and any(it["kind"] == "req" and it["framing"] == "ck" for it in items)):
+                (confs[ci]["stream"] and any(it["kind"] == "req" and it["framing"] == "ck" for it in items)) or \
+                any(it.get("tov") for it in items):
             continue
         ref = None
         for kind, ob, segs, gap, lone in lst:
@@ -1264,10 +1462,7 @@ def replay_conn(ctx, rep):
         o += ln
     mo, _, _ = C.run_model("h1", [line])
     items, phase, skip = model_expect(mo[0])
-    srv = e2e.Server(bd, cf["text"], modules=("mod_cgi",))
-    for pth, content in STATIC.items():
-        open(srv.docroot + pth, "wb").write(content)
-    open(srv.docroot + "/echo.pl", "w").write(ECHO_PL)
+    srv = make_server(bd, cf)
     head_flags = head_flags_of(data, cf["strict"])
     outs = []
     with srv:
@@ -1296,7 +1491,7 @@ def replay_line(ctx, rep):
     line = rep["input"]
     if line.startswith("conn"):
         return replay_conn(ctx, rep)
-    name = "h_request" if line.startswith("req") else "h_h1body"
+    name = "h_request" if line.startswith("req ") else "h_h1body"
     exe, err = C.build_harness(name)
     o, rc, e = C.run_lines([exe], [line])
     m, _, _ = C.run_model("h1", [line])
